@@ -189,13 +189,18 @@ def gen_cases(tier, seed):
     for method, conv, sp2, uhf, grad, n, count in sp_plan:
         for _ in range(count):
             sp.append(_sp_case(g, tier, method, conv, sp2, uhf, grad, n, maxperm))
-    # the grounding witness of DESIGN 7 row 4 (SP2 + padded batch + anion), always present
-    for sp2 in ([1e-5] if tier == "quick" else [1e-5, 1e-9]):
-        sp.append({"kind": "sp", "method": "AM1", "conv": [2], "sp2": sp2, "uhf": False, "grad": "autodiff",
-                   "members": [{"mol": "OH-", "geom_seed": 11}, {"mol": "CH4", "geom_seed": 12}],
-                   "layouts": [{"perm": [0, 1], "pad": 0, "padval": 0.0, "seed": 1},
-                               {"perm": [1, 0], "pad": 1, "padval": "random", "seed": 2}],
-                   "perms_exhaustive": True, "padfam": {"perm": [0, 1], "pad": 1, "seeds": [3, 4]}})
+    # grounding witnesses of DESIGN 7 row 4 (SP2 + padded batch + anion): OH- next to CH4.  Whether the uncapped SP2 loop
+    # spins depends on the SCF path (it needs an intermediate Fock matrix with occupied levels above the padding
+    # levels at 0 eV); geometry seed 3 was seen to trigger it for all three methods on the tree before the fix.
+    wit = [("AM1", 1e-5), ("PM3", 1e-9), ("MNDO", 1e-7)] if tier == "quick" else \
+          [(m, t) for m in ("AM1", "PM3", "MNDO") for t in (1e-5, 1e-7, 1e-9)]
+    for method, sp2 in wit:
+        for gs in ([3] if tier == "quick" else [1, 2, 3, 6, 7]):
+            sp.append({"kind": "sp", "method": method, "conv": [2], "sp2": sp2, "uhf": False, "grad": "autodiff",
+                       "members": [{"mol": "OH-", "geom_seed": gs}, {"mol": "CH4", "geom_seed": gs + 100}],
+                       "layouts": [{"perm": [0, 1], "pad": 0, "padval": 0.0, "seed": 1},
+                                   {"perm": [1, 0], "pad": 1, "padval": "random", "seed": 2}],
+                       "perms_exhaustive": True, "padfam": {"perm": [0, 1], "pad": 1, "seeds": [3, 4]}})
     sp.sort(key=lambda c: -len(c["layouts"]) * len(c["members"]))
     return sp[:3] + cases + sp[3:]
 
